@@ -141,6 +141,21 @@ reg('C11', 'exploration',
     'Trusted: vf/ref/refglob.py (self-checked against 16 hand-written expectations each run).',
     'DESIGN.md §2 C11')
 
+reg('C04', 'exploration',
+    'files on disk + recording stubs observed across build / no-op build / touch / clean of '
+    'generated projects whose names were first calibrated against hand-written reference build '
+    'files for the same tool',
+    'Every special character (3 positions where position matters), two-character combinations and '
+    'random names are placed in 8 roles (source file/dir, build_step output + consumer, copy '
+    'output, executable name, output directory sentinel, find_files directory, submodule '
+    'directory), one project per name and back end. A name is only demanded of bfg9000 if some '
+    'textbook escaping makes GNU make / the reference Ninja (rule syntax and depfile syntax '
+    'separately) create the file, stay quiet on the second run and notice a touch.',
+    'Trusted: the calibration renderings (raw / backslash per special char / $$); stubs; refninja '
+    '(incl. its implementation of the Ninja depfile grammar). Mechanisms are named by the single '
+    'characters that reproduce a failure on their own.',
+    'DESIGN.md §2 C04')
+
 NOT_APPLICABLE = {}
 
 ALL = ['C%02d' % i for i in range(1, 21)]
